@@ -496,3 +496,166 @@ Proof.
   cbv zeta. split; [reflexivity|]. split; [reflexivity|]. split; [reflexivity|].
   split; [constructor; reflexivity|]. vm_compute. repeat split; reflexivity.
 Qed.
+
+(* ================================================================ extension: one element through an ARRAY type class *)
+(* Request kinds the clauses above do not state (they take a NON-array type class for a single value, and
+   1 < n for `{n}`): `arr[i]`, `udts[i]`, `strs[i]`, `udt.arr[j]`, `udts[i].inner[k]` := one value — the tag_info
+   the driver holds is the array's (Array(n0, element)), encode_value wraps the value as [value] —, and the same
+   places written as `...{1}` with a list of any length >= 1 (first item written, rest ignored, by the code as by
+   the reference).  Element types: Proofs/WriteStruct.ty_guard minus bit strings (an element of a BOOL array is
+   C02_bool_element / C02_bool_slice1).  Statements: Proofs/WriteSlices.stmt_element / stmt_slice1 (generic in the
+   type field packed_data_type yields, under "it parses as a type the location matches"), instances below. *)
+From PV Require Import Proofs.WriteSlices.
+
+Definition C02_write_correct_element : Prop := stmt_element.
+Theorem C02_write_correct_element_holds : C02_write_correct_element.
+Proof. exact write_correct_element. Qed.
+Print Assumptions C02_write_correct_element_holds.
+
+Definition C02_write_correct_slice1 : Prop := stmt_slice1.
+Theorem C02_write_correct_slice1_holds : C02_write_correct_slice1.
+Proof. exact write_correct_slice1. Qed.
+Print Assumptions C02_write_correct_slice1_holds.
+
+(* the instance for an element of an array of structures / strings given as a dict / str
+   (`udts[i]`, `udt.inner[k]`, `strs[i]`): type field = the structure handle *)
+Definition C02_write_correct_element_struct : Prop :=
+  forall p m r inst off tid dims avail t e x rv m_ref img id tag n0 inst_id ui seq path,
+  ty_guard (depth_fuel p) p (BStruct tid) = true -> wty_of (depth_fuel p) p (BStruct tid) = Some e ->
+  resolve p r = Some (PlData inst off (BStruct tid) dims avail) -> r_bit r = None -> r_count r = None ->
+  mem_get m inst = Some img ->
+  find_template (p_templates p) tid = Some t -> 0 <= t_handle t < 65536 -> PyStr.text_eqb (t_name t) n_DWORD = false ->
+  denotes x rv -> ref_write p m r rv = Some m_ref -> 1 <= avail -> 0 <= seq < 65536 ->
+  let info := mkInfo true (t_name t) (WArray n0 e) (t_handle t) inst_id in
+  let q := mkParsed id false tag None 1 None info x in
+  let l := mkWLoc inst off (BStruct tid) dims avail None in
+  path_of tag info ui = Ok (Some path) ->
+  exists data pk pk1,
+    encode_value q = Ok (data, 1)
+    /\ new_write_packet KWrite seq tag 1 info id ui 0 data = Ok pk
+    /\ build_message pk = Ok pk1
+    /\ k_message pk1 = le_enc 2 seq ++ [77] ++ path ++ write_data (160 :: 2 :: le_enc 2 (t_handle t)) 1 data
+    /\ svc_write p m img l (write_data (160 :: 2 :: le_enc 2 (t_handle t)) 1 data) = (m_ref, mr_ok [], [EvApp 1 [inst; off; 77] data]).
+Theorem C02_write_correct_element_struct_holds : C02_write_correct_element_struct.
+Proof. exact write_correct_element_struct. Qed.
+Print Assumptions C02_write_correct_element_struct_holds.
+
+(* the instance for an element of an array of integers / REALs / LREALs, incl. an array MEMBER (`udt.arr[j]`) *)
+Definition C02_write_correct_element_atom : Prop :=
+  forall p m r inst off c dims avail name x rv m_ref img id tag n0 tyh inst_id ui seq path,
+  resolve p r = Some (PlData inst off (BAtom c) dims avail) -> r_bit r = None -> r_count r = None ->
+  mem_get m inst = Some img ->
+  atom_name c = Some name -> value_atom c = true ->
+  denotes x rv -> ref_write p m r rv = Some m_ref -> 1 <= avail -> 0 <= seq < 65536 ->
+  let info := mkInfo false name (WArray n0 (WElem name)) tyh inst_id in
+  let q := mkParsed id false tag None 1 None info x in
+  let l := mkWLoc inst off (BAtom c) dims avail None in
+  path_of tag info ui = Ok (Some path) ->
+  exists data pk pk1,
+    encode_value q = Ok (data, 1)
+    /\ new_write_packet KWrite seq tag 1 info id ui 0 data = Ok pk
+    /\ build_message pk = Ok pk1
+    /\ k_message pk1 = le_enc 2 seq ++ [77] ++ path ++ write_data (le_enc 2 c) 1 data
+    /\ svc_write p m img l (write_data (le_enc 2 c) 1 data) = (m_ref, mr_ok [], [EvApp 1 [inst; off; 77] data]).
+Theorem C02_write_correct_element_atom_holds : C02_write_correct_element_atom.
+Proof. exact write_correct_element_atom. Qed.
+Print Assumptions C02_write_correct_element_atom_holds.
+
+(* `{1}` instances *)
+Definition C02_write_correct_slice1_struct : Prop :=
+  forall p m r inst off tid dims avail t e l_py vs m_ref img id tag n0 inst_id ui seq path,
+  ty_guard (depth_fuel p) p (BStruct tid) = true -> wty_of (depth_fuel p) p (BStruct tid) = Some e ->
+  resolve p r = Some (PlData inst off (BStruct tid) dims avail) -> r_bit r = None -> r_count r = Some 1 ->
+  mem_get m inst = Some img ->
+  find_template (p_templates p) tid = Some t -> 0 <= t_handle t < 65536 -> PyStr.text_eqb (t_name t) n_DWORD = false ->
+  Forall2 denotes l_py vs -> ref_write p m r (RList vs) = Some m_ref -> 0 <= seq < 65536 ->
+  let info := mkInfo true (t_name t) (WArray n0 e) (t_handle t) inst_id in
+  let q := mkParsed id false tag None 1 None info (PList l_py) in
+  let l := mkWLoc inst off (BStruct tid) dims avail None in
+  path_of tag info ui = Ok (Some path) ->
+  exists data pk pk1,
+    encode_value q = Ok (data, 1)
+    /\ new_write_packet KWrite seq tag 1 info id ui 0 data = Ok pk
+    /\ build_message pk = Ok pk1
+    /\ k_message pk1 = le_enc 2 seq ++ [77] ++ path ++ write_data (160 :: 2 :: le_enc 2 (t_handle t)) 1 data
+    /\ svc_write p m img l (write_data (160 :: 2 :: le_enc 2 (t_handle t)) 1 data) = (m_ref, mr_ok [], [EvApp 1 [inst; off; 77] data]).
+Theorem C02_write_correct_slice1_struct_holds : C02_write_correct_slice1_struct.
+Proof. exact write_correct_slice1_struct. Qed.
+Print Assumptions C02_write_correct_slice1_struct_holds.
+
+Definition C02_write_correct_slice1_atom : Prop :=
+  forall p m r inst off c dims avail name l_py vs m_ref img id tag n0 tyh inst_id ui seq path,
+  resolve p r = Some (PlData inst off (BAtom c) dims avail) -> r_bit r = None -> r_count r = Some 1 ->
+  mem_get m inst = Some img ->
+  atom_name c = Some name -> value_atom c = true ->
+  Forall2 denotes l_py vs -> ref_write p m r (RList vs) = Some m_ref -> 0 <= seq < 65536 ->
+  let info := mkInfo false name (WArray n0 (WElem name)) tyh inst_id in
+  let q := mkParsed id false tag None 1 None info (PList l_py) in
+  let l := mkWLoc inst off (BAtom c) dims avail None in
+  path_of tag info ui = Ok (Some path) ->
+  exists data pk pk1,
+    encode_value q = Ok (data, 1)
+    /\ new_write_packet KWrite seq tag 1 info id ui 0 data = Ok pk
+    /\ build_message pk = Ok pk1
+    /\ k_message pk1 = le_enc 2 seq ++ [77] ++ path ++ write_data (le_enc 2 c) 1 data
+    /\ svc_write p m img l (write_data (le_enc 2 c) 1 data) = (m_ref, mr_ok [], [EvApp 1 [inst; off; 77] data]).
+Theorem C02_write_correct_slice1_atom_holds : C02_write_correct_slice1_atom.
+Proof. exact write_correct_slice1_atom. Qed.
+Print Assumptions C02_write_correct_slice1_atom_holds.
+
+(* non-vacuity on a concrete project (Proofs/WriteSlices.ex2_proj: mix : udtMix, mixes : udtMix[3], us : udtS with a
+   string member): `mixes[1]` := dict; `mixes[2]{1}` := [dict, 5]; member paths `mix.Vals[1]`, `mixes[1].Count`,
+   `us.Name` resolve to the data places the clauses are stated for, and the reference / model / target agree there *)
+Example C02_write_correct_element_nonvacuous :
+  wf_project ex2_proj = true /\ wf_mem ex2_proj ex2_mem = true
+  /\ ty_guard (depth_fuel ex2_proj) ex2_proj (BStruct 672) = true
+  /\ denotes (py_of ex2_rv) ex2_rv
+  /\ resolve ex2_proj (mkReq None [mkSeg (WriteFull.zs "mixes") [1]] None None) = Some (PlData 11 12 (BStruct 672) [] 2)
+  /\ resolve ex2_proj (mkReq None [mkSeg (WriteFull.zs "mixes") [2]] None (Some 1)) = Some (PlData 11 24 (BStruct 672) [] 1)
+  /\ resolve ex2_proj (mkReq None [mkSeg (WriteFull.zs "mix") []; mkSeg (WriteFull.zs "Vals") [1]] None None) = Some (PlData 9 8 (BAtom C_DINT) [] 1)
+  /\ resolve ex2_proj (mkReq None [mkSeg (WriteFull.zs "mixes") [1]; mkSeg (WriteFull.zs "Count") []] None None) = Some (PlData 11 14 (BAtom C_INT) [] 1)
+  /\ resolve ex2_proj (mkReq None [mkSeg (WriteFull.zs "us") []; mkSeg (WriteFull.zs "Name") []] None None) = Some (PlData 13 0 (BStruct 3000) [] 1).
+Proof.
+  split; [reflexivity|]. split; [reflexivity|]. split; [vm_compute; reflexivity|]. split; [exact ex2_denotes|].
+  vm_compute. repeat split; reflexivity.
+Qed.
+Example C02_write_correct_element_example : _ := ex_element_struct.
+Example C02_write_correct_slice1_example : _ := ex_slice1_struct.
+Example C02_write_correct_member_paths_example : _ := ex_member_paths.
+
+(* ================================================================ C02_full is false of the faithful model; the exact guard *)
+(* The struct clause of C02_full for EVERY well-formed project fails on a structure whose BOOL member is listed
+   BEFORE a visible member covering its byte, written with a dict that contradicts itself (Pt00 = True, Data = 0 with
+   Pt00 = Data.0): the code lets the bits win, the reference lets the later member win; no memory satisfies both
+   entries, so this is a limit of the reference's convention, not a violation of the property text (replayed on the
+   real driver through the harness (check_call of harness/props/c02.py on the fixed scenario + modT): memory after the write = "bits win",
+   every byte outside the structure unchanged, one write executed, frames = the model's; with a dict that does not contradict
+   itself the full oracle passes: corpus/C02/10-bool-before-host-consistent-dict.json).
+   Second witness (Proofs/WriteStruct2.struct_hidden_bool): a hidden BOOL member makes the dict of the visible
+   members fail with RequestError before anything is sent — no successful write, nothing for C02 to say.
+   The guard is the complement of Proofs/WriteStruct.ty_guard; inside it the clause is C02_struct_holds. *)
+From PV Require Import Proofs.WriteStruct2.
+
+Theorem C02_full_refuted : ~ C02_full.
+Proof. intros (_ & _ & H). exact (struct_full_refuted H). Qed.
+Print Assumptions C02_full_refuted.
+
+Definition C02_guard (p : project) (tid : Z) : bool := negb (ty_guard (depth_fuel p) p (BStruct tid)).
+
+Definition C02_guarded_stmt : Prop :=
+  C02_proved /\ C02_bool_slice1 /\ stmt_struct_with (fun p tid => C02_guard p tid = false).
+Theorem C02_guarded : C02_guarded_stmt.
+Proof.
+  split; [exact C02_partial|]. split; [exact write_correct_bool_slice1|].
+  unfold stmt_struct_with. intros p m r inst off tid dims avail t x rv m_ref img id tag ty inst_id ui seq path Hg.
+  apply (write_correct_struct p m r inst off tid dims avail t x rv m_ref img id tag ty inst_id ui seq path).
+  unfold C02_guard in Hg. destruct (ty_guard (depth_fuel p) p (BStruct tid)); [reflexivity|discriminate].
+Qed.
+Print Assumptions C02_guarded.
+
+(* the witnesses: both projects are well-formed and outside the guard's complement; what differs / fails *)
+Example C02_full_refuted_witness : _ := bh_facts.
+Example C02_consistent_dict_agrees : _ := bh_consistent.
+Example C02_hidden_bool_witness : _ := struct_hidden_bool.
+Example C02_bit_string_members_agree : _ := bits_members_agree.
+Example C02_odd_string_layout_differs : _ := odd_string_differs.
